@@ -112,6 +112,15 @@ pub fn hostile_bytes(rng: &mut Rng, max_len: usize) -> Vec<u8> {
                     "Accept-Encoding: identity;q=0.000, *;q=1e-999\r\n",
                     "Expect: 100-continue;q=nan\r\n",
                     "Transfer-Encoding: chunked;q=nan, identity\r\n",
+                    // characters whose lower/upper-case form has another UTF-8 length, in front of an entry that is refused
+                    "Accept-Encoding: \u{130}, identity;q=0\r\n",
+                    "Accept-Encoding: \u{212a}\u{212a}\u{212a},*;q=0\r\n",
+                    "Accept-Encoding: \u{1e9e}\u{23a}\u{23e}, gzip, identity;q=0\r\n",
+                    "Accept: \u{130}text/plain, \u{212b}application/json\r\n",
+                    "Expect: \u{130}100-continue\r\n",
+                    "Content-Length: \u{ff11}\u{ff12}\r\n",
+                    "\u{130}Content-Length\u{212a}: 3\r\n",
+                    "Connection: close\r\n",
                 ]);
                 // at the start of a line if there is one, else anywhere
                 let starts: Vec<usize> = v.windows(2).enumerate().filter(|(_, w)| *w == b"\r\n").map(|(i, _)| i + 2).collect();
